@@ -40,6 +40,21 @@ impl Checker for C10 {
                         ));
                         break;
                     }
+                    // (review 3) entry 1 of a library-formatted volume: an end-of-chain mark of the width (this
+                    // includes the clean-shutdown / no-error bits of FAT16 / FAT32)
+                    let e1 = f.raw(1) & 0x0FFF_FFFF;
+                    let eoc_min: u32 = match g.width {
+                        12 => 0xFF8,
+                        16 => 0xFFF8,
+                        _ => 0x0FFF_FFF8,
+                    };
+                    if e1 < eoc_min {
+                        v.push((
+                            "C10/reserved-entry-1-is-not-an-end-of-chain-mark".into(),
+                            format!("copy {c}: entry 1 = {e1:#x}, end-of-chain marks of FAT{} start at {eoc_min:#x}", g.width),
+                        ));
+                        break;
+                    }
                 }
             }
         }
@@ -120,8 +135,41 @@ pub fn mk_top(width: u8, nfree: u32, name: &str) -> Cfg {
     vol::cfg_from(name, img, Some(keep))
 }
 
+/// (review 3) fixed root directory that does not fill its last sector (`root_entries` not a multiple of 16)
+pub fn mk_root(width: u8, root_entries: u32, name: &str) -> Cfg {
+    let mut s = MkSpec::new(width);
+    s.root_entries = root_entries;
+    let mut b = Builder::new(s);
+    let last = b.geo.max_cluster();
+    let keep: Vec<u32> = vec![2, 3, 4, last - 1, last];
+    b.ballast(&keep);
+    vol::cfg_from(name, b.finish(), Some(keep))
+}
+
+/// (review 3) all free clusters are low-numbered and the last cluster is NOT free: once they are used up the allocation
+/// hint stands above every free cluster, so the next allocation goes through the wrap-around scan [2, hint);
+/// `hint` != 0: FAT32 fs-info "next free" value of the foreign image (hint above all free clusters from the start)
+pub fn mk_lowfree(width: u8, hint: u32, name: &str) -> Cfg {
+    let mut b = Builder::new(MkSpec::new(width));
+    let first = if width == 32 { 3 } else { 2 };
+    let keep: Vec<u32> = vec![first, first + 1, first + 2];
+    b.ballast(&keep);
+    b.set_fsinfo(keep.len() as u32, if hint == 0 { 0xFFFF_FFFF } else { hint });
+    let mut cands = keep.clone();
+    if width == 32 {
+        cands.push(2);
+    }
+    vol::cfg_from(name, b.finish(), Some(cands))
+}
+
 pub fn configs(th: bool) -> Vec<Cfg> {
     let mut v = Vec::new();
+    v.push(mk_lowfree(12, 0, "m12-lowfree"));
+    v.push(mk_lowfree(16, 0, "m16-lowfree"));
+    v.push(mk_lowfree(32, 0, "m32-lowfree"));
+    v.push(mk_lowfree(32, 65526, "m32-lowfree-hint-top"));
+    v.push(mk_root(12, 20, "m12-root20"));
+    v.push(mk_root(16, 20, "m16-root20"));
     v.push(mk_top(12, 8, "m12-top"));
     v.push(mk_top(16, 8, "m16-top"));
     for width in [12u8, 16] {
@@ -157,7 +205,8 @@ pub fn configs(th: bool) -> Vec<Cfg> {
     if th {
         v.push(mk(32, 3, 0x82, 0x5, 5, "m32-3f-active2-nib5"));
     }
-    // volumes formatted by the library with each legal non-default media byte class (removable 0xF0, 0xF9, 0xFF)
+    // volumes formatted by the library with each legal non-default media byte class (removable 0xF0, 0xF9, 0xFF); the
+    // 0xF9 ones over a used medium (every byte 0xA5): a FAT copy that formatting did not initialise differs from the first
     for (ft, w) in [(fatfs::FatType::Fat12, 12), (fatfs::FatType::Fat16, 16), (fatfs::FatType::Fat32, 32)] {
         for media in [0xF0u8, 0xF9, 0xFF] {
             if !th && ((w == 16 && media != 0xF9) || (w == 12 && media != 0xFF)) {
@@ -170,7 +219,7 @@ pub fn configs(th: bool) -> Vec<Cfg> {
                 spec.free = Some(5);
             }
             spec.name = format!("fmt{w}-media{media:02x}");
-            let (img, cands) = vol::build_with(&spec, &|o| o.media(media)).expect("formatted volume");
+            let (img, cands) = vol::build_over(&spec, &|o| o.media(media), if media == 0xF9 { 0xA5 } else { 0 }).expect("formatted volume");
             v.push(vol::cfg_from(&spec.name, img, cands));
         }
     }
